@@ -5,6 +5,9 @@
              with the v1 context only, DB blob opens with the v1 context only, decoded
              document), marker scan of every file of the state directory, mode bits, KEK uses
              - compared with the symbolic model (Server/Crypto.v) run on the database model.
+             Some calls have their save REFUSED by the file system (HOp false): error, the
+             pre-call state stays served, the file is untouched, no KEK use; in a third of the
+             histories the key service is down between opens.
              The handle is dropped and the file REOPENED with the same key at random points
              (HRe): one KEK use per reopen, none by any call incl. the first write after it.
    - Opens:  a session of db.Open attempts IN ONE PROCESS on one path, every attempt made
@@ -35,13 +38,20 @@ Record sobs := {
   so_name_hits : N;          (* marker NAMES found in the database file or a temporary *)
   so_mode_db : N;
   so_mode_audit : N;
-  so_kek : N                 (* KEK uses during the call *)
+  so_kek : N;                (* KEK uses during the call *)
+  so_res : N;                (* outcome class of the call: 0 success, 1 not found, 2 any other error *)
+  so_live : live_dump        (* the state the handle serves (full dump through the API) *)
 }.
 
-Inductive fkind := FTmpCreate | FCacheFile | FCacheDir.
+Inductive fkind :=
+| FTmpCreate       (* a temporary of the database at creation *)
+| FCacheFile       (* the client cache file, freshly created *)
+| FCacheDir
+| FCacheOver       (* the client cache file after FileCache.Write over a PRE-EXISTING file with lax bits *)
+| FDbOver.         (* the database file after a save over a valid database file that had been chmod'ed lax *)
 
 Inductive hobs :=
-| HOp (o : DB.op V) (ob : sobs)      (* a call, probed afterwards *)
+| HOp (ok : bool) (o : DB.op V) (ob : sobs)   (* a call (ok = the file system accepts its save), probed afterwards *)
 | HRe (ob : sobs).                   (* handle dropped, file reopened with the same key, probed *)
 
 Inductive akind := AR | AF | AT.
@@ -87,19 +97,31 @@ Definition check_probe (f : term) (uses : N) (model_doc : disk_dump) (o : sobs) 
   && (so_mode_db o =? 384) && (so_mode_audit o =? 384)
   && (so_kek o =? uses).
 
+Definition res_class (r : result V) : N :=
+  match r with RNotFound => 1 | ROther | RDenied => 2 | _ => 0 end.
+
+(* what the file holds after a call: the new state if it was saved, else what it held (which,
+   disk being memory along these histories, is the pre-call state) *)
+Definition kv_of_file (s s' : dbstate V) (saved : bool) : kvs V := if saved then kv s' else kv s.
+
 (* [f]: the symbolic file on disk *)
 Fixpoint run_hist (c : cstate) (s : dbstate V) (f : term) (steps : list hobs) : bool :=
   match steps with
   | [] => true
-  | HOp o ob :: rest =>
-      let '(s', _, fx) := db_step N.eqb okenv s su o in
+  | HOp ok o ob :: rest =>
+      let '(s', r, fx) := db_step N.eqb {| save_ok := ok; audit := AOk |} s su o in
       let '(f', u) := c_save c 0 (doc_term (kv s')) in
       let saved := has_save fx in
       let f1 := if saved then f' else f in
-      check_probe f1 (if saved then u else 0) (disk_of (kv s')) ob && run_hist c s' f1 rest
+      (* a refused save: the file keeps its contents, the handle serves the pre-call state, the
+         call reports an error - and no key was used, although the key service may be down *)
+      check_probe f1 (if saved then u else 0) (disk_of (kv_of_file s s' saved)) ob
+      && (so_res ob =? res_class r) && live_beq (live_of (kv s')) (so_live ob)
+      && run_hist c s' f1 rest
   | HRe ob :: rest =>
       match c_open kek f with
-      | (Some (c', _), u) => check_probe f u (disk_of (kv s)) ob && run_hist c' (db_open (kv s)) f rest
+      | (Some (c', _), u) => check_probe f u (disk_of (kv s)) ob && (so_res ob =? 0) && live_beq (live_of (kv s)) (so_live ob)
+                             && run_hist c' (db_open (kv s)) f rest
       | (None, _) => false
       end
   end.
@@ -127,7 +149,7 @@ Definition att_ok (orig : disk_dump) (dumps : list disk_dump) (a : att) : bool :
 Definition expected_mode_ok (k : fkind) (m : N) : bool :=
   match k with
   | FTmpCreate => N.eqb (N.land m 63) 0      (* created with no group/other bits *)
-  | FCacheFile => m =? 384                    (* 0600 *)
+  | FCacheFile | FCacheOver | FDbOver => m =? 384   (* 0600 *)
   | FCacheDir => m =? 448                     (* 0700 *)
   end.
 
@@ -141,6 +163,6 @@ Definition check (c : case) : bool :=
   end.
 
 (* compact constructor for generated terms *)
-Definition So (keys : list N) (ver : N) (d1 d2 b1 b2 : bool) (doc : disk_dump) (vh nh md ma k : N) : sobs :=
+Definition So (keys : list N) (ver : N) (d1 d2 b1 b2 : bool) (doc : disk_dump) (vh nh md ma k rc : N) (lv : live_dump) : sobs :=
   {| so_keys := keys; so_ver := ver; so_dek_v1 := d1; so_dek_other := d2; so_db_v1 := b1; so_db_other := b2;
-     so_doc := doc; so_val_hits := vh; so_name_hits := nh; so_mode_db := md; so_mode_audit := ma; so_kek := k |}.
+     so_doc := doc; so_val_hits := vh; so_name_hits := nh; so_mode_db := md; so_mode_audit := ma; so_kek := k; so_res := rc; so_live := lv |}.
